@@ -225,12 +225,12 @@ def main():
             except Exception as e:  # noqa
                 witness = None
         if v["backend"] == "verus":
-            ws = P.get("witness")
-            if ws:
+            if "_verus_witness" not in locals():
                 try:
-                    witness = ws(v)
+                    _verus_witness = vf.witness_search(pid)
                 except Exception as e:  # noqa
-                    witness = None
+                    _verus_witness = None
+            witness = _verus_witness
         with open(path, "w") as fh:
             fh.write(f"property: {pid}\nbackend: {v['backend']}\nfunction: {v['function']}\nfailed obligation: {v['obligation']}\n"
                      f"key: {v['key']}\n\n")
